@@ -38,6 +38,8 @@ LEAVES = [
     [S("error"), Q(S("a")), 1],
     [S("error"), Q(S("b")), 2, STR("x")],
     [S("error"), Q(S("internal-panic")), 3],      # forged: an ordinary condition
+    # a lone string datum that would mean something to a formatter (the data is what was given, character for character)
+    [S("error"), Q(S("a")), STR("100% done, %d left %s %% {} {0}")],
     [S("boom")],                                   # a real host panic
     [S("rethrow")],
     S("unbound-x"),
